@@ -548,13 +548,10 @@ func normalizeValue(
 	case reflect.Struct:
 		if v, ok := tryTConfig(v); ok {
 			c := v.Addr().Interface().(*Config)
-			// never attach the caller's Config itself to the temporary tree being
-			// built (that would re-parent it): use a Config sharing its contents
-			ret := cfgSub{&Config{ctx: c.ctx, metadata: c.metadata, fields: c.fields}}
-			if ret.Context().parent != ctx.parent {
-				ret.SetContext(ctx)
-			}
-			return ret, nil
+			// never attach the caller's Config, or anything it shares with it, to
+			// the temporary tree being built: that would re-parent it, and other
+			// keys of the same input ("a.b" next to "a") are normalized into it
+			return cfgSub{c}.cpy(ctx), nil
 		}
 
 		return normalizeStructValue(opts, ctx, v)
